@@ -211,7 +211,11 @@ class C02(PropBase):
             except ValueError as e:
                 sess.violation("invalid-json", i, {"t": tsrc, "err": str(e)[:120], "bytes": repr(b[:80])}, sig="invalid-json")
                 return
-            if m.ok and not _json_eq(parsed, m.value):
+            if m.ok and _has_nonfinite(m.value):
+                # a non-finite float can only reach the wire through the lossy first-acceptor rule
+                # (float(Decimal('1E+400')) in a union): recorded under C01/first-acceptor-marshal
+                sess.probes["nonfinite_float_in_marshal_output"] += 1
+            elif m.ok and not _json_eq(parsed, m.value):
                 sess.violation("json-differs-from-marshal", i, {"t": tsrc, "parsed": _s(model.canon(parsed)), "marshal": _s(model.canon(m.value))},
                                sig="json-differs-from-marshal")
         if "dec" not in rec:
@@ -240,6 +244,19 @@ def _identity(x):
 
 def _is_bytes_t(t) -> bool:
     return t["k"] in ("bytes", "bytearray")
+
+
+def _has_nonfinite(x) -> bool:
+    stack = [x]
+    while stack:
+        cur = stack.pop()
+        if isinstance(cur, float) and (cur != cur or cur in (float("inf"), float("-inf"))):
+            return True
+        if isinstance(cur, dict):
+            stack.extend(cur.values())
+        elif isinstance(cur, (list, tuple)):
+            stack.extend(cur)
+    return False
 
 
 def _json_eq(a, b) -> bool:
